@@ -162,7 +162,7 @@ impl Raw {
                 "wcl" => r.wcl = Some(v.parse().unwrap()),
                 "cs" => r.cs = Some(v.parse().unwrap()),
                 "sm" => r.sm = Some(String::from_utf8(unhex(v)).unwrap()),
-                "empty" => {}
+                "empty" | "route" | "files" | "req" => {}
                 _ => {
                     if let Some(i) = LEN_KEYS.iter().position(|x| *x == k) {
                         r.lens[i] = Some(v.parse().unwrap());
@@ -190,8 +190,15 @@ impl Raw {
 
     /// lib.plist of a format-1 font carrying the lists as `org.robofab.postScriptHintData`
     pub fn hint_lib(&self) -> String {
+        self.hint_lib_with("")
+    }
+
+    /// the same with further keys in the lib dictionary
+    pub fn hint_lib_with(&self, extra: &str) -> String {
         let mut s = String::from(PLIST_HEAD);
-        s.push_str("<dict><key>org.robofab.postScriptHintData</key><dict>\n");
+        s.push_str("<dict>");
+        s.push_str(extra);
+        s.push_str("<key>org.robofab.postScriptHintData</key><dict>\n");
         let names = ["blueValues", "otherBlues", "familyBlues", "familyOtherBlues", "hStems", "vStems"];
         for (i, l) in self.lens.iter().enumerate() {
             if let Some(n) = l {
@@ -714,7 +721,218 @@ fn emit(out: &mut dyn Write, ctx: &Ctx, raw: &Raw) {
 
 pub fn replay(toks: &[&str]) -> String {
     let ctx = Ctx::new();
+    let get = |k: &str| toks.iter().find_map(|t| t.strip_prefix(k).map(|v| v.to_string()));
+    if let Some(route) = get("route=") {
+        let files = get("files=").unwrap_or_else(|| "-".into());
+        let req = get("req=").unwrap_or_else(|| "load".into());
+        let dir = scratch_root().join("c13").join("glue.ufo");
+        glue_tree(&dir, &route, &files);
+        return glue_observe(&dir, &route, &files, &req, &Raw::parse(toks));
+    }
     observe(&ctx, &Raw::parse(toks))
+}
+
+// ---------------------------------------------------------------------------------------------
+// the "glue" stream: every route by which font info reaches a loaded Font (fontinfo.plist of format 3 / 2,
+// the robofab hint data of a format-1 lib.plist) crossed with the other optional files of a UFO and with the
+// load entry points / data requests.
+// line: `C13 route=<v3|v2|v1> files=<fea0,fea,grp,krn,lib,rfeat,linfo,data,img,glyph|-> req=<load|all|..> <raw tokens>
+//        => g=<loaded:valid | loaded:invalid | rejected:<class> | panic>`
+
+pub const GLUE_FILES: [&str; 10] = ["fea0", "fea", "grp", "krn", "lib", "rfeat", "linfo", "data", "img", "glyph"];
+
+fn glue_lib_extra(files: &str) -> String {
+    let has = |f: &str| files.split(',').any(|x| x == f);
+    let mut s = String::new();
+    if has("lib") {
+        s.push_str("<key>com.example.keep</key><integer>7</integer>");
+    }
+    if has("rfeat") {
+        s.push_str("<key>org.robofab.opentype.classes</key><string>@c = [a];\n</string>");
+        s.push_str("<key>org.robofab.opentype.features</key><dict><key>kern</key><string>feature kern { pos a a -1; } kern;\n</string></dict>");
+    }
+    s
+}
+
+/// everything of the tree except the file(s) that carry the font info
+pub fn glue_tree(dir: &Path, route: &str, files: &str) {
+    let fmt = match route {
+        "v3" => 3,
+        "v2" => 2,
+        _ => 1,
+    };
+    base_tree(dir, fmt);
+    let has = |f: &str| files.split(',').any(|x| x == f);
+    if has("fea0") {
+        std::fs::write(dir.join("features.fea"), "").unwrap();
+    }
+    if has("fea") {
+        std::fs::write(dir.join("features.fea"), "# an explicit feature file\nlanguagesystem DFLT dflt;\n").unwrap();
+    }
+    if has("grp") {
+        let key = if fmt == 3 { "public.kern1.x" } else { "@MMK_L_x" };
+        std::fs::write(
+            dir.join("groups.plist"),
+            format!("{}<dict><key>{}</key><array><string>a</string></array><key>other</key><array><string>a</string></array></dict></plist>\n", PLIST_HEAD, key),
+        )
+        .unwrap();
+    }
+    if has("krn") {
+        std::fs::write(
+            dir.join("kerning.plist"),
+            format!("{}<dict><key>a</key><dict><key>b</key><integer>-10</integer></dict></dict></plist>\n", PLIST_HEAD),
+        )
+        .unwrap();
+    }
+    if fmt != 1 && (has("lib") || has("rfeat")) {
+        std::fs::write(dir.join("lib.plist"), format!("{}<dict>{}</dict></plist>\n", PLIST_HEAD, glue_lib_extra(files))).unwrap();
+    }
+    if has("linfo") {
+        std::fs::write(
+            dir.join("glyphs").join("layerinfo.plist"),
+            format!("{}<dict><key>color</key><string>1,0,0,1</string></dict></plist>\n", PLIST_HEAD),
+        )
+        .unwrap();
+    }
+    if has("data") {
+        std::fs::create_dir_all(dir.join("data").join("sub")).unwrap();
+        std::fs::write(dir.join("data").join("sub").join("a.txt"), b"data").unwrap();
+    }
+    if has("img") {
+        std::fs::create_dir_all(dir.join("images")).unwrap();
+        std::fs::write(dir.join("images").join("i.png"), [0x89u8, 0x50, 0x4e, 0x47, 0x0d, 0x0a, 0x1a, 0x0a]).unwrap();
+    }
+    if has("glyph") {
+        std::fs::write(
+            dir.join("glyphs").join("contents.plist"),
+            format!("{}<dict><key>a</key><string>a.glif</string></dict></plist>\n", PLIST_HEAD),
+        )
+        .unwrap();
+        std::fs::write(
+            dir.join("glyphs").join("a.glif"),
+            "<?xml version=\"1.0\" encoding=\"UTF-8\"?>\n<glyph name=\"a\" format=\"1\">\n<advance width=\"500\"/>\n</glyph>\n",
+        )
+        .unwrap();
+    }
+}
+
+pub fn glue_observe(dir: &Path, route: &str, files: &str, req: &str, raw: &Raw) -> String {
+    match route {
+        "v3" | "v2" => std::fs::write(dir.join("fontinfo.plist"), raw.plist()).unwrap(),
+        _ => {
+            std::fs::write(dir.join("fontinfo.plist"), format!("{}<dict><key>familyName</key><string>F</string></dict></plist>\n", PLIST_HEAD)).unwrap();
+            std::fs::write(dir.join("lib.plist"), raw.hint_lib_with(&glue_lib_extra(files))).unwrap();
+        }
+    }
+    let request = |name: &str| -> norad::DataRequest<'static> {
+        match name {
+            "all" => norad::DataRequest::default(),
+            "nolib" => norad::DataRequest::default().lib(false),
+            "nofeat" => norad::DataRequest::default().features(false),
+            "none" => norad::DataRequest::none(),
+            "onlylib" => norad::DataRequest::none().lib(true),
+            "onlyfeat" => norad::DataRequest::none().features(true),
+            "nolayers" => norad::DataRequest::default().layers(false),
+            "nokern" => norad::DataRequest::default().groups(false).kerning(false),
+            other => panic!("request {}", other),
+        }
+    };
+    let res = if req == "load" { guarded(|| Font::load(dir)) } else { guarded(|| Font::load_requested_data(dir, request(req))) };
+    let g = match res {
+        Err(_) => "panic".to_string(),
+        Ok(Ok(font)) => match guarded(|| font.font_info.validate()) {
+            Ok(Ok(())) => "loaded:valid".to_string(),
+            Ok(Err(k)) => format!("loaded:invalid:{}", kind(&k)),
+            Err(_) => "loaded:validate-panics".to_string(),
+        },
+        Ok(Err(e)) => match e {
+            norad::error::FontLoadError::FontInfo(b) => match b {
+                norad::error::FontInfoLoadError::ParsePlist(_) => "rejected:parse".into(),
+                norad::error::FontInfoLoadError::InvalidData(k) => format!("rejected:invalid:{}", kind(&k)),
+                norad::error::FontInfoLoadError::FontInfoUpconversion(k) => format!("rejected:invalid:{}", kind(&k)),
+                _ => "rejected:other-fontinfo".into(),
+            },
+            norad::error::FontLoadError::FontInfoV1Upconversion(k) => format!("rejected:invalid:{}", kind(&k)),
+            other => format!("unrelated-error:{}", format!("{:?}", other).chars().take_while(|c| c.is_ascii_alphanumeric()).collect::<String>()),
+        },
+    };
+    format!("g={}", g)
+}
+
+fn glue_values(route: &str) -> Vec<Raw> {
+    let mut v: Vec<Raw> = Vec::new();
+    let lens = |i: usize, n: usize| {
+        let mut r = Raw::default();
+        r.lens[i] = Some(n);
+        r
+    };
+    // the six lists: just inside and just outside each rule (all three routes can carry them)
+    for (i, n) in [(0, 14), (0, 15), (0, 16), (0, 13), (1, 10), (1, 11), (1, 12), (2, 16), (2, 1), (3, 12), (3, 9), (4, 12), (4, 13), (5, 12), (5, 13)] {
+        v.push(lens(i, n));
+    }
+    let mut all_ok = Raw::default();
+    all_ok.lens = [Some(14), Some(10), Some(14), Some(10), Some(12), Some(12)];
+    v.push(all_ok.clone());
+    let mut last_bad = all_ok.clone();
+    last_bad.lens[5] = Some(13);
+    v.push(last_bad);
+    if route != "v1" {
+        v.push(Raw { d: Some("2020/13/15 12:30:30".into()), ..Default::default() });
+        v.push(Raw { d: Some("2020/00/15 12:30:30".into()), ..Default::default() });
+        v.push(Raw { d: Some(GOOD_DATE.into()), ..Default::default() });
+        v.push(Raw { sel: Some(vec![1, 5]), ..Default::default() });
+        v.push(Raw { sel: Some(vec![7, 8]), ..Default::default() });
+        v.push(Raw { fc: Some(vec![15, 0]), ..Default::default() });
+        v.push(Raw { fc: Some(vec![14, 15]), ..Default::default() });
+    }
+    if route == "v3" {
+        v.push(Raw { g: Some(vec![2, 1]), ..Default::default() });
+        v.push(Raw { g: Some(vec![1, 2]), ..Default::default() });
+        v.push(Raw { gl: Some(vec![format!("v#{}", hexs("k")), format!("h#{}", hexs("k"))]), ..Default::default() });
+        v.push(Raw { gl: Some(vec![format!("a{}", f64bits(400.0))]), ..Default::default() });
+        v.push(Raw { gl: Some(vec![format!("a{}#{}", f64bits(360.0), hexs("k"))]), ..Default::default() });
+        v.push(Raw { we: Some(vec![]), ..Default::default() });
+        v.push(Raw { we: Some(vec![vec![(1, 1)]]), ..Default::default() });
+        let mut wc = Raw::default();
+        wc.wn[0] = Some(0);
+        v.push(wc);
+    }
+    v
+}
+
+pub fn gen_glue(thorough: bool, rng: &mut Rng, out: &mut dyn Write) {
+    let dir = scratch_root().join("c13").join("glue.ufo");
+    let reqs_all = ["load", "all", "none", "nofeat", "nolib", "onlylib", "onlyfeat", "nolayers", "nokern"];
+    for route in ["v3", "v2", "v1"] {
+        let usable: Vec<&str> = GLUE_FILES.iter().copied().filter(|f| *f != "rfeat" || route == "v1").collect();
+        // file sets: none, each file alone, everything (with the empty and with the non-empty feature file), random subsets
+        let mut sets: Vec<String> = vec!["-".to_string()];
+        for f in &usable {
+            sets.push(f.to_string());
+        }
+        sets.push(usable.iter().copied().filter(|f| *f != "fea0").collect::<Vec<_>>().join(","));
+        sets.push(usable.iter().copied().filter(|f| *f != "fea").collect::<Vec<_>>().join(","));
+        for _ in 0..(if thorough { 12 } else { 3 }) {
+            let pick: Vec<&str> = usable.iter().copied().filter(|f| *f != "fea0" && rng.chance(1, 2)).collect();
+            sets.push(if pick.is_empty() { "-".to_string() } else { pick.join(",") });
+        }
+        let values = glue_values(route);
+        for files in &sets {
+            glue_tree(&dir, route, files);
+            for (vi, raw) in values.iter().enumerate() {
+                // every entry point for the first file sets, a rotating pair otherwise (all of them in the thorough tier)
+                let reqs: Vec<&str> = if thorough || files.len() <= 5 {
+                    reqs_all.to_vec()
+                } else {
+                    vec!["load", reqs_all[1 + (vi % (reqs_all.len() - 1))]]
+                };
+                for req in reqs {
+                    let obs = glue_observe(&dir, route, files, req, raw);
+                    writeln!(out, "C13 route={} files={} req={} {} => {}", route, files, req, raw.tokens(), obs).unwrap();
+                }
+            }
+        }
+    }
 }
 
 fn bits(x: f64) -> String {
@@ -957,6 +1175,22 @@ pub fn gen(tier: &str, seed: u64, out: &mut dyn Write) {
             emit(out, &ctx, &Raw { gl: Some(v), ..Default::default() });
         }
     }
+    // empty, blank, 100- and 101-character identifiers, alone and duplicated (the accessor and the serialised
+    // form must agree on what an identifier is)
+    let id100 = "i".repeat(100);
+    let id101 = "i".repeat(101);
+    let special: [&str; 5] = ["", " ", "  ", &id100, &id101];
+    for a in special.iter() {
+        emit(out, &ctx, &Raw { gl: Some(vec![format!("v#{}", hexid(a))]), ..Default::default() });
+        emit(out, &ctx, &Raw { gl: Some(vec![format!("v#{}", hexid(a)), format!("h#{}", hexid(a))]), ..Default::default() });
+        emit(out, &ctx, &Raw { gl: Some(vec![format!("v#{}", hexid(a)), "h".into(), format!("a{}#{}", bits(45.0), hexid(a))]), ..Default::default() });
+        for b in special.iter() {
+            if a != b {
+                emit(out, &ctx, &Raw { gl: Some(vec![format!("v#{}", hexid(a)), format!("h#{}", hexid(b))]), ..Default::default() });
+            }
+        }
+        emit(out, &ctx, &Raw { gl: Some(vec![format!("v#{}", hexid(a)), format!("h#{}", hexid("a")), "v".into()]), ..Default::default() });
+    }
     for g in ["n", "xy", "n#6162"] {
         emit(out, &ctx, &Raw { gl: Some(vec![g.to_string()]), ..Default::default() });
         emit(out, &ctx, &Raw { gl: Some(vec!["v".into(), g.to_string()]), ..Default::default() });
@@ -998,6 +1232,9 @@ pub fn gen(tier: &str, seed: u64, out: &mut dyn Write) {
     for s in ["regular", "italic", "bold", "bold italic", "Regular", "bold  italic", "", "bolditalic", "italic bold", " regular"] {
         emit(out, &ctx, &Raw { sm: Some(s.to_string()), ..Default::default() });
     }
+
+    // --- routes x other files x entry points
+    gen_glue(thorough, &mut rng, out);
 
     // --- combinations of the attributes that also exist in formats 1 / 2 (reach the upconversion paths)
     let n_legacy = if thorough { 4000 } else { 500 };
